@@ -1,5 +1,5 @@
-CONSTANT Proto <- EnvProto
-CONSTANT Dirs <- EnvDirs
+CONSTANT Protos <- EnvProtos
+CONSTANT DirSets <- EnvDirSets
 CONSTANT Docs <- D1
 CONSTANT MaxEdits = 2
 CONSTANT MaxStops = 1
